@@ -5,7 +5,7 @@ PROPERTY = 'C06'
 LEAN_PROPS = 'PlumpyModel.Props.C06'
 ASSUMPTIONS = pm_prop.ASSUMPTIONS
 TRUSTED = pm_prop.TRUSTED
-ALPHABET = ['pause', 'play', 'resume', 'resume-', 'resumeN', 'complete', 'completeexc', 'completekilled', 'kill']
+ALPHABET = ['pause', 'play', 'resume', 'resume-', 'resumeN', 'resumeE', 'complete', 'completeexc', 'completekilled', 'kill']
 MONITORS = ['c06', 'looperr']
 
 
